@@ -78,6 +78,12 @@ func (d *decoder) processHalftoneRegion(hdr *segmentHeader, data []byte) error {
 	if _, err := checkedMul(hgw, hgh); err != nil {
 		return fmt.Errorf("halftone grid: %w", err)
 	}
+	if hgw == 0 || hgh == 0 {
+		// An empty grid has no cells: nothing to place.  Without this, a
+		// zero width with a huge height passes the product check above
+		// but makes the row loops below spin billions of times.
+		hgw, hgh = 0, 0
+	}
 
 	// compute skip bitmap if enabled (§6.6.5.1)
 	var hskip *bitmap.Bitmap
